@@ -1568,7 +1568,7 @@ def assignments_to_ifexp(func):
                 if ta is not None and not st.orelse and i > 0:
                     prev = block[i - 1]
                     if isinstance(prev, ast.Assign) and len(prev.targets) == 1 and isinstance(prev.targets[0], ast.Name) and prev.targets[0].id == ta and is_pure(prev.value) \
-                            and cannot_fail(prev.value) and (is_pure(st.test) and not may_raise(st.test) or id(st) not in in_try) \
+                            and cannot_fail(prev.value) and (is_pure(st.test) and not may_raise(st.test) and is_pure(va) and not may_raise(va) or id(st) not in in_try) \
                             and not any(isinstance(n, ast.Name) and n.id == ta for n in ast.walk(st.test)) and not any(isinstance(n, ast.Name) and n.id == ta for n in ast.walk(va)) \
                             and not interferes(ast.Expr(value=st.test), read_chains(prev.value)):
                         new = ast.Assign(targets=[ast.Name(id=ta, ctx=ast.Store())], value=ast.IfExp(test=st.test, body=va, orelse=prev.value))
@@ -1719,7 +1719,7 @@ def loops_to_comprehensions(func):
                     uses_x = any(isinstance(n, ast.Name) and n.id == x for part in ([elt, lp.iter] + ([cond] if cond is not None else [])) for n in ast.walk(part))
                     later = [n for s_ in block[i + 2:] for n in ast.walk(s_) if isinstance(n, ast.Name) and n.id in tnames]
                     outer_uses = [n for n in ast.walk(func) if isinstance(n, ast.Name) and n.id in tnames and not any(n is y for y in ast.walk(lp))]
-                    if not uses_x and not later and not outer_uses:
+                    if not uses_x and not later and not outer_uses and not _has_nested_scope_use(func, x):
                         gens = [ast.comprehension(target=lp.target, iter=lp.iter, ifs=[cond] if cond is not None else [], is_async=0)]
                         if is_set:
                             a.value = ast.SetComp(elt=elt, generators=gens)
@@ -3061,11 +3061,13 @@ def _through_property(target, c):
 
 def _aliased_in(target, c):
     """the assignment target (text) goes through a local that may be another name for something the test c reads"""
-    root = target.split('.')[0].strip(MARK)
+    tparts = tuple(x.strip(MARK) for x in target.split('.'))
     for p, q in ALIASES[0]:
         for a, b in ((p, q), (q, p)):
+            a = (a[0].strip(MARK),) + tuple(a[1:])
             b = (b[0].strip(MARK),) + tuple(b[1:])
-            if len(a) == 1 and a[0].strip(MARK) == root and ('.'.join(b) in c or '.'.join([MARK + b[0] + MARK] + list(b[1:])) in c):
+            # the target goes through a (a local or a chain) and the test mentions b, another name for the same object
+            if _prefix(tparts, a) and ('.'.join(b) in c or '.'.join([MARK + b[0] + MARK] + list(b[1:])) in c):
                 return True
     return False
 
@@ -3191,7 +3193,7 @@ def seq(stmts, k, budget):
             # (an override that can fail would leave the default in place in one spelling and the old value in the other)
             return bool(br) and br[0][0] == 'assign' and br[0][1] == (tgt,) and root not in br[0][2] and _effect_free_text(br[0][2]) and '[' not in br[0][2] \
                 and not any(h in br[0][2] for h in ('(Div ', '(FloorDiv ', '(Mod '))
-        if tgt not in c and c not in _RAISING_ATOMS and overwrites(then) != overwrites(other):
+        if tgt not in c and c not in _RAISING_ATOMS and not _through_property(tgt, c) and not _aliased_in(tgt, c) and overwrites(then) != overwrites(other):
             node = ('assign', (tgt,), cx(st.value))
             budget[0] -= 1
             return (('if', c, then, (node,) + other),) if overwrites(then) else (('if', c, (node,) + then, other),)
@@ -4010,7 +4012,15 @@ def canonical(func, helpers=None, consts=None, sized=None, cls_name=None, props=
                 seen[k] = f'$L{len(seen)}'
             return seen[k]
         text = re.sub(MARK + '([^' + MARK + ']+)' + MARK, rep, text)
-        return ('async ' if isinstance(func, ast.AsyncFunctionDef) else '') + _signature(f) + ' :: ' + text
+        def _own_yield(node):
+            for c_ in ast.iter_child_nodes(node):
+                if isinstance(c_, (ast.FunctionDef, ast.AsyncFunctionDef, ast.Lambda, ast.ClassDef)):
+                    continue
+                if isinstance(c_, (ast.Yield, ast.YieldFrom)) or _own_yield(c_):
+                    return True
+            return False
+        # (a `yield` anywhere - even in a place that is never reached - makes the function a generator)
+        return ('async ' if isinstance(func, ast.AsyncFunctionDef) else '') + ('generator ' if _own_yield(func) else '') + _signature(f) + ' :: ' + text
     except (NotCanonicalisable, RecursionError):
         return None
     finally:
